@@ -358,4 +358,32 @@ theorem Ip4.fromSlice_inv_aux (b : Bytes) (h : Ip4) (r : Bytes) (hd : Ip4.fromSl
         · cases hd
         · omega
 
+/-! ### MacsecHeader -/
+
+def Macsec.get (h : Macsec) (name : String) : Nat :=
+  if name = "v" then 0 else if name = "es" then b2n h.es else if name = "sc" then b2n h.sci.isSome
+  else if name = "scb" then b2n h.scb else if name = "e" then b2n h.encrypted
+  else if name = "c" then b2n h.userdataChanged else if name = "an" then h.an
+  else if name = "sl_reserved" then 0 else if name = "short_len" then h.shortLen
+  else if name = "pn" then h.pn else if name = "sci" then h.sci.getD 0
+  else if name = "ether_type" then (match h.ptype with | .unmodified e => e | _ => 0) else 0
+
+theorem Macsec.tciAn_arith (h : Macsec) :
+    h.tciAn = h.an % 4 + b2n h.userdataChanged * 4 + b2n h.encrypted * 8 + b2n h.scb * 16
+      + b2n h.sci.isSome * 32 + b2n h.es * 64 := by
+  unfold Macsec.tciAn b2n
+  cases h.userdataChanged <;> cases h.encrypted <;> cases h.scb <;> cases h.sci.isSome <;>
+    cases h.es <;> simp only [if_true, if_false, Bool.false_eq_true, Nat.or_zero] <;>
+    (repeat (first
+      | rw [lor_eq_add' 2 _ 4 (by omega) (by omega)]
+      | rw [lor_eq_add' 3 _ 8 (by omega) (by omega)]
+      | rw [lor_eq_add' 4 _ 16 (by omega) (by omega)]
+      | rw [lor_eq_add' 5 _ 32 (by omega) (by omega)]
+      | rw [lor_eq_add' 6 _ 64 (by omega) (by omega)])) <;> omega
+
+@[simp] theorem b2n_true_aux : b2n true = 1 := rfl
+@[simp] theorem b2n_false_aux : b2n false = 0 := rfl
+
+/-! ### MacsecHeader, decoding -/
+
 end EpModel.BitFields
